@@ -127,7 +127,7 @@ def _open_output_file(fn):
     if fn == '-':
         outf = sys.stdout
     else:
-        outf = open(fn,'w')
+        outf = open(fn, 'w', encoding='utf8')
     try:
         yield outf
     finally:
